@@ -14,7 +14,7 @@ def build(u):
     u.spec("tlv_get_lemmas.rs", shared=True)
     u.raw("pub mod tlv {\nuse super::*;\nuse crate::vec_model::Vec;\n")
     u.item(t, "TlvEntry", "struct")
-    u.raw("impl Clone for TlvEntry {\n #[verifier::external_body]\n fn clone(&self) -> (r: Self) ensures r == *self { unimplemented!() }\n}\n")
+    u.derived(t, "TlvEntry", "Clone", "tlv")
     u.item(t, "SerializedTlvStream", "struct")
     u.spec("tlv_get_proved.rs")
     u.spec("tlv_get.rs", shared=True)
